@@ -59,10 +59,31 @@ def _mk_key(a):
     return repr(a)
 
 
+class BudgetExceeded(Exception):
+    """The term algebra used more memory than the budget allows (an exponential case split in the analysed code)."""
+
+
+_BUDGET = {"n": 0, "mb": 2200}
+
+
+def _check_budget():
+    _BUDGET["n"] += 1
+    if _BUDGET["n"] & 0x3FFF:
+        return
+    try:
+        with open("/proc/self/statm") as f:
+            rss = int(f.read().split()[1]) * 4096 // (1 << 20)  # current resident set, MB
+    except Exception:
+        return
+    if rss > _BUDGET["mb"]:
+        raise BudgetExceeded("term construction exceeded %d MB" % _BUDGET["mb"])
+
+
 class R:
     __slots__ = ("num", "den", "_k", "_h", "tree")
 
     def __init__(self, num, den=None):
+        _check_budget()
         # num, den: dict monomial -> Fraction ; monomial: tuple of (atom, power)
         if den is None:
             den = {(): Fraction(1)}
